@@ -23,6 +23,14 @@ from ..engine import Query
 from ..lib.inhost import InHostMixin, HOST_ASSUMPTIONS, PH_DEVTX
 
 PROP = "C11"
+# FINDINGS (genuine defects found by this check on the original tree, now fixed in /repo):
+#   "fix: USBInTransferManager only accepts an ACK for its own IN transaction" (9dd0b3d)
+#       WAIT_FOR_ACK took any handshakes_in.ack: after a lost packet, a token for another device address (pid -> 0, no
+#       new_token) followed by the host's ACK of that device's data made the manager drop its unacknowledged packet and
+#       toggle.  Caught by: order (data loss), retry_same, pid_seq, last_ends_packet, short_needs_boundary,
+#       zlp_after_full_last, zlp_spurious, no_nak_when_ready -- all only inside scenario kf_foreign_ack_taken
+#       (layer fack=0 held).  The input `fack` / cover foreign_ack_pending keep exercising the scenario.
+#   "fix: a data-toggle reset wins over the toggle of a newly queued IN packet" (04d9e6c) was found by C14 (harness A).
 ENCODED = [
     "luna/gateware/usb/usb2/transfer.py: USBInTransferManager (double buffer, fill counts, stream_ended, data_pid, ZLP, retry FSM)",
     "luna/gateware/usb/usb2/endpoints/stream.py: USBStreamInEndpoint (wiring, active only for its endpoint number)",
@@ -264,7 +272,7 @@ def queries(tier):
         qs.append(Query(f"bmc_{tag}", f, K, timeout=900, covers=COVERS if (primary or not quick) else ["zlp_accepted", "retry_rx_fail"],
                         asserts=ASSERTS if primary else ["any"],
                         desc=f"{kind} mps={mps}: everything free (host events incl. broadcast ACKs, rx_ok, tx.ready, stream, flush)"))
-        if primary:
+        if primary and not quick:
             qs.append(Query(f"bmc_nofack_{tag}", f, K, timeout=900, covers=[], asserts=["any"], layer={"fack": 0},
                             desc=f"{kind} mps={mps}: restricted layer: no broadcast ACKs for other devices/endpoints"))
         if primary or not quick:
